@@ -110,6 +110,9 @@ impl GenFile {
             ("bare-url/query-fragment", "https://zxqv.example/teh?wrold=qwrtz&x=1#recieve"),
             ("bare-url/percent-escape", "https://zxqv.example/teh%20wrold/qwrtz"),
             ("bare-url/port-only", "https://zxqv.example:443"),
+            ("bare-url/balanced-parens", "https://zxqv.example/teh(wrold)/qwrtz"),
+            ("bare-url/paren-inside", "https://zxqv.example/qwrtz)/teh/wrold"),
+            ("bare-url/smiley-in-query", "https://zxqv.example/teh?q=:)&x=wrold"),
         ];
         let (what, url) = *rng.pick(SHAPES);
         self.raw(" see ");
